@@ -10,7 +10,9 @@ fuzz_target!(|data: &[u8]| {
         return;
     }
     let table = props::fuzz_sim_table();
-    let (id, case) = table[data[0] as usize % table.len()];
+    // FUZZ_SIM_ONLY=<ID> pins the campaign to one property
+    let pinned = std::env::var("FUZZ_SIM_ONLY").ok().and_then(|id| table.iter().position(|(i, _)| *i == id));
+    let (id, case) = table[pinned.unwrap_or(data[0] as usize % table.len())];
     let mut t = Tape::from_bytes(&data[1..]);
     let ctx = CaseCtx { want_sample: false, replay: false };
     if let Err(f) = omaha_verif::engine::catch(|| case(&mut t, &ctx)).unwrap_or_else(|(loc, msg)| Err(omaha_verif::engine::Failure::new(format!("panic@{loc}"), msg, Default::default()))) {
